@@ -1,15 +1,131 @@
-/- T2N.Model.De — STUB (to be replaced by the model of src/lang/de/mod.rs) -/
+/-
+  T2N.Model.De — model of `src/lang/de/mod.rs` (struct `German`).
+-/
 import T2N.Model.Lang
 
 namespace T2N.De
 
+/-- `lemmatize`: remove the declension of ordinals. When the word ends with `tes`, `ter`, `ten` or
+`tem`, ALL trailing characters of the set `{s, n, m, r}` are stripped
+(`trim_end_matches(['s','n','m','r'])`); since the character before them is `e`, exactly one
+character goes away. -/
+def lemmatize (w : Word) : Word :=
+  if endsWith w w!"tes" || endsWith w w!"ter" || endsWith w w!"ten" || endsWith w w!"tem" then
+    trimEndBy (fun c => c == 's' || c == 'n' || c == 'm' || c == 'r') w
+  else w
+
+/-- The patterns of the `WordSplitter` (`impl Default for German`), same order. -/
+def patterns : List Word := [
+  w!"billion", w!"billionste",
+  w!"milliarden", w!"milliarde", w!"milliardste",
+  w!"millionen", w!"million", w!"millionste",
+  w!"tausend", w!"tausendste",
+  w!"hundert", w!"hundertste",
+  w!"und"]
+
+/-- units: `if b.is_free(2) => { to_block = Excludable::TENS; b.put(d) }` -/
+def unit (d : Nat) : Act := .when (.free 2) (.block 1 (.put [d]))
+
+/-- tens: `if !blocked.contains(Excludable::TENS) => b.put_digit_at(d, 1)` -/
+def tens (d : Nat) : Act := .when (.neg (.flag 1)) (.putAt d 1)
+
+def hundred : Act :=
+  .ite (.or (.peekLen 2 1) (.peekLt 2 [2, 0])) (.shift 2) (.fail .overlap)
+
+def thousand : Act := .when (.rangeFree 3 5) (.shift 3)
+
+def million : Act := .when (.rangeFree 6 8) (.shift 6)
+
+/-- lemma ↦ instruction (the `match lemma { … }` of `apply`). No lemma occurs in two arms, so a
+failed guard falls through to `_ => Err(Error::NaN)`. -/
+def vocab : List (Word × Act) := [
+  (w!"null", .put [0]),
+  (w!"ein", unit 1), (w!"eins", unit 1), (w!"erste", unit 1),
+  (w!"zwei", unit 2), (w!"zwo", unit 2), (w!"zweite", unit 2),
+  (w!"drei", unit 3), (w!"dritte", unit 3),
+  (w!"vier", unit 4), (w!"vierte", unit 4),
+  (w!"fünf", unit 5), (w!"fünfte", unit 5),
+  (w!"sechs", unit 6), (w!"sechste", unit 6),
+  (w!"sieben", unit 7), (w!"siebte", unit 7),
+  (w!"acht", unit 8), (w!"achte", unit 8),
+  (w!"neun", unit 9), (w!"neunte", unit 9),
+  (w!"zehn", .put [1,0]), (w!"zehnte", .put [1,0]),
+  (w!"elf", .put [1,1]), (w!"elfte", .put [1,1]),
+  (w!"zwölf", .put [1,2]), (w!"zwölfte", .put [1,2]),
+  (w!"dreizehn", .put [1,3]), (w!"dreizehnte", .put [1,3]),
+  (w!"vierzehn", .put [1,4]), (w!"vierzehnte", .put [1,4]),
+  (w!"fünfzehn", .put [1,5]), (w!"fünfzehnte", .put [1,5]),
+  (w!"sechzehn", .put [1,6]), (w!"sechzehnte", .put [1,6]),
+  (w!"siebzehn", .put [1,7]), (w!"siebzehnte", .put [1,7]),
+  (w!"achtzehn", .put [1,8]), (w!"achtzehnte", .put [1,8]),
+  (w!"neunzehn", .put [1,9]), (w!"neunzehnte", .put [1,9]),
+  (w!"zwanzig", tens 2), (w!"zwanzigste", tens 2),
+  (w!"dreißig", tens 3), (w!"dreissig", tens 3), (w!"dreißigste", tens 3), (w!"dreissigste", tens 3),
+  (w!"vierzig", tens 4), (w!"vierzigste", tens 4),
+  (w!"fünfzig", tens 5), (w!"fünfzigste", tens 5),
+  (w!"sechzig", tens 6), (w!"sechzigste", tens 6),
+  (w!"siebzig", tens 7), (w!"siebzigste", tens 7),
+  (w!"achtzig", tens 8), (w!"achtzigste", tens 8),
+  (w!"neunzig", tens 9), (w!"neunzigste", tens 9),
+  (w!"hundert", hundred), (w!"hundertste", hundred),
+  (w!"tausend", thousand), (w!"tausendste", thousand),
+  (w!"million", million), (w!"millionen", million), (w!"millionste", million),
+  (w!"milliarde", .shift 9), (w!"milliarden", .shift 9), (w!"milliardste", .shift 9),
+  (w!"billion", .shift 12), (w!"billionste", .shift 12),
+  (w!"und", .fail .incomplete)
+]
+
+/-- `get_morph_marker` -/
+def morph (w : Word) : Marker :=
+  if endsWith w w!"te" then .ordinal .dot else .none
+
+/-- `apply`. The fuel bounds the compound recursion `apply → exec_group → apply`: a piece produced
+by the splitter is either a whole pattern or a gap that contains no pattern, and `lemmatize` only
+removes characters at the end, so a piece is never splittable again and depth 2 is never exceeded
+(`applyFuel 0` is unreachable). -/
+def applyFuel : Nat → Word → DS → Res × DS
+  | 0, _, b => (some .nan, b)
+  | fuel + 1, w, b =>
+    let lemma := lemmatize w
+    if isSplittable patterns lemma then
+      match execGroup (applyFuel fuel) (splitWord patterns lemma) with
+      | .ok ds => mergeGroup b ds false ds.marker
+      | .error e => (some e, b)
+    else
+      let act := (vocab.lookup lemma).getD (.fail .nan)
+      let (r, b', toBlock) := act.exec b
+      if r.isNone then
+        let b' := { b' with flags := toBlock }
+        let b' := if endsWith lemma w!"te" then { b' with marker := morph lemma, frozen := true } else b'
+        let b' := if lemma == w!"eins" then b'.freeze else b'
+        (r, b')
+      else
+        (r, { b' with flags := 0 })
+
+def apply : Word → DS → Res × DS := applyFuel 2
+
+/-- `apply_decimal`: digit by digit (no lemmatization; "ein", "zwo" are not accepted). -/
+def decVocab : List (Word × Nat) := [
+  (w!"null", 0), (w!"eins", 1), (w!"zwei", 2), (w!"drei", 3), (w!"vier", 4),
+  (w!"fünf", 5), (w!"sechs", 6), (w!"sieben", 7), (w!"acht", 8), (w!"neun", 9)]
+
+def applyDecimal (w : Word) (b : DS) : Res × DS :=
+  match decVocab.lookup w with
+  | some d => b.push [d]
+  | none => (some .nan, b)
+
+def insignificant : List Word := [
+  w!"aber", w!"ah", w!"äh", w!"ähm", w!"also", w!"gut", w!"auch", w!"denn", w!"doch", w!"dort",
+  w!"eben", w!"eh", w!"halt", w!"ja", w!"mal", w!"sehen", w!"naja", w!"nun", w!"ok", w!"schon",
+  w!"so", w!"genau", w!"und", w!"noch"]
+
 def lang : Lang where
   code := "de"
-  apply := fun _ b => (some .nan, b)
-  applyDecimal := fun _ b => (some .nan, b)
-  morph := fun _ => .none
-  isDecSep := fun _ => false
+  apply := apply
+  applyDecimal := applyDecimal
+  morph := morph
+  isDecSep := fun w => w == w!"komma"
   decMark := ','
-  isLinking := fun _ => false
+  isLinking := fun w => insignificant.contains w
 
 end T2N.De
